@@ -29,6 +29,10 @@ var aggrGroupExprs = []orderField{
 	{"upper(value)", "uv", "str"}, {"strlen(value)", "lv", "num"}, {"is_int(value)", "iv", "bool"},
 }
 
+// arithmetic written around an aggregate call (two constants in a row: an engine that regroups
+// `(x op c1) op c2` as `x op (c1 op c2)` changes float results)
+var aggrPosts = []string{" + 1", " * 2", " * 3 * 7", " + 1 + 2", " * 3 * 3", " + 9007199254740992 + 1"}
+
 var aggrArgs = []struct{ expr, typ string }{
 	{"strlen(value)", "int"}, {"strlen(key) * 2", "int"}, {"int(value)", "int"}, {"float(value)", "float"}, {"strlen(value) * 0.5", "float"},
 	// text that reads as an integer for some pairs and as a float for others (sum/avg/count only:
@@ -38,6 +42,8 @@ var aggrArgs = []struct{ expr, typ string }{
 
 func aggrStore(r *Rand) []KV {
 	pool := []KV{{"a", "bc"}, {"ab", "c"}, {"abc", ""}, {"a1", "2"}, {"a12", "2"}, {"b", "12"}, {"b1", "2"}, {"ba", "12"}, {"k1", "1"}, {"k12", "21"}, {"k2", "1"}, {"k21", "c"}, {"l", "7"}, {"m", "-3"}, {"p1", "0.5"}, {"p2", "1.5"}, {"p3", "-0.25"},
+		// floats that are not dyadic: every arithmetic step rounds, so the ORDER of the steps shows
+		{"q1", "0.1"}, {"q2", "1.2"}, {"q3", "0.7"},
 		// values of 10 and more bytes, digit-leading keys, ':' inside: the group key must stay injective
 		{"0", "abcdefgh1z"}, {"10abcdefgh", "z"}, {"1", "0:a"}, {"11:0", "a"}, {"3:abc", "2"}, {"3", "abc2"}}
 	n := r.Intn(len(pool) + 1)
@@ -127,7 +133,7 @@ func runAGGR(e *Env) (*Summary, error) {
 						sp.call = "json_arrayagg(" + sp.arg + ")"
 					}
 					if (kind == "sum" || kind == "count" || kind == "max") && r.Chance(1, 3) {
-						sp.post = pick(r, []string{" + 1", " * 2"})
+						sp.post = pick(r, aggrPosts)
 					}
 					specs = append(specs, sp)
 				}
@@ -299,10 +305,15 @@ func aggrExpect(sp aggrSpec, rows [][]any, c int) string {
 		strs = append(strs, toStr(v))
 	}
 	num := func(i int64, f float64) string {
-		if sp.post == " + 1" {
-			i, f = i+1, f+1
-		} else if sp.post == " * 2" {
-			i, f = i*2, f*2
+		// the arithmetic written around the call, applied left to right as written
+		pt := strings.Fields(sp.post)
+		for k := 0; k+1 < len(pt); k += 2 {
+			c, _ := strconv.ParseInt(pt[k+1], 10, 64)
+			if pt[k] == "+" {
+				i, f = i+c, f+float64(c)
+			} else {
+				i, f = i*c, f*float64(c)
+			}
 		}
 		if isFloat {
 			return "f:" + canonFloat(f)
